@@ -121,9 +121,9 @@ class SafeHTML:
         return self.text
 
 
-def render_data(d):
+def render_data(d, suffix=""):
     from markupsafe import Markup
-    s = datum(d)
+    s = datum(d) + suffix
     return {"d": s, "arr": [s, "x"], "hh": [{"k": s}], "m": Markup(s), "h": SafeHTML(s)}
 
 
@@ -159,11 +159,16 @@ def _env(ae, fresh=False):
     return _ENV[ae]
 
 
+_LOOP: list = []
+
+
 def _outcome(t, data, how):
     try:
         if how == "sync":
             return True, t.render(**data)
-        return True, asyncio.run(t.render_async(**data))
+        if not _LOOP:
+            _LOOP.append(asyncio.new_event_loop())      # one loop per worker process (asyncio.run would build one per render)
+        return True, _LOOP[0].run_until_complete(t.render_async(**data))
     except Exception as e:          # noqa: BLE001 - which error is C02's business; here an error is "no output"
         return False, type(e).__name__
 
@@ -216,15 +221,19 @@ def replay_chunk(job):
                 env = _env(ae, fresh=primed)
                 env.loader.templates.update(extra)
                 envs[ae] = (env, env.from_string(src))
+            prime = None
+            if primed:
+                # history: an earlier render in this process applied the same chain to the same text marked safe
+                # (date: used it as the format string)
+                prime = "{{ 0 | date: m }}" if case["src"] == "zero" else "{{ m" + chain_text(case["chain"]) + " }}"
             for d in data_strings:
-                data = render_data(d)
+                data = render_data(d, "z" if primed else "")
                 s = data["d"]
                 for how in ("sync", "async"):
                     wit = (ci, sink, d, how)
                     if primed:
-                        # history: an earlier render in this process formatted a date with the same text marked safe
                         for ae, (env, _) in envs.items():
-                            env.from_string("{{ 0 | date: m }}").render(m=Markup(s))
+                            _outcome(env.from_string(prime), data, how)
                     del _LOG[:]
                     ok, out = _outcome(envs[True][1], data, how)
                     stats["renders"] += 1
@@ -311,10 +320,10 @@ def judge(records):
             json.dump(records, f)
         r = run_tlc("TaintTrace", "cfg/TaintTrace.cfg", workers=1, timeout=3000, env={"TRACE_FILE": path})
         acc = {int(m.group(1)) - 1 for m in re.finditer(r'^<<"ACCEPT", (\d+)>>', r.out, re.M)}
-        rej = {int(m.group(1)) - 1 for m in re.finditer(r'^<<"REJECT", (\d+)>>', r.out, re.M)}
-        if len(acc) + len(rej) != len(records) or acc & rej:
+        rej = {int(m.group(1)) - 1: m.group(2) for m in re.finditer(r'^<<"REJECT", (\d+), "(\w+)">>', r.out, re.M)}
+        if len(acc) + len(rej) != len(records) or acc & set(rej):
             raise MachineryError(f"TaintTrace.tla judged {len(acc) + len(rej)} of {len(records)} observations:\n" + r.out[-2000:])
-        return sorted(rej), r
+        return rej, r
     finally:
         shutil.rmtree(d, ignore_errors=True)
 
@@ -337,7 +346,10 @@ def run(tier: str) -> int:
     jobs = [("Taint", "cfg/" + c, dict(workers=8 if tier == "quick" else 6, timeout=3000, java_opts=deep)) for c in checks]
     jobs += [("Taint", f"cfg/Taint_dev_{d}.cfg", dict(workers=2, timeout=3000, expect_violation=True, java_opts=deep)) for d in ("Memo", "Cut")]
     jobs += [("Taint", f"cfg/Taint_{tier}_emit.cfg", dict(workers=4, timeout=3000, java_opts=deep))]
+    import time
+    t0 = time.time()
     res = model_runs(jobs)
+    ck.cov["phase_s"] = {"model": round(time.time() - t0, 1)}
     for (m, c, _), r in zip(jobs, res):
         ck.tlc(c[4:-4], r)
     for c, r in zip(checks, res):
@@ -369,13 +381,15 @@ def run(tier: str) -> int:
                       f"unless, case, ifchanged, render, include, with/for variants, translate tag and filter, the three ternary positions, "
                       f"with, macro, block.super" + ("; all but output/capture/cycle/translate only with strings of <=1 atom" if tier == "quick" else "") + ") with every data string of its class ({ndata} strings of <={max(len(d) for v in _DATA.values() for d in v)} "
                       "atoms over x < > & \" ' &lt; &amp %3C" + ("" if tier == "quick" else "; strings of 3 atoms sampled, 40 per case") +
-                      "), sync and async; date-memo history cases first format a date with the same text marked safe")
+                      "), sync and async; history cases (every single filter on plain data, and date formats) first apply the same chain to the same text marked safe in the same process")
     # 2. replay
     order = list(range(len(cases)))
     random.Random(seed()).shuffle(order)            # spread the 23-sink cases over the chunks
     size = 24
     chunks = [(order[i:i + size], 0 if tier == "quick" else 40, seed() * 7919 + i) for i in range(0, len(order), size)]
+    t0 = time.time()
     out = par.pmap(replay_chunk, chunks, chunk=1)
+    ck.cov["phase_s"]["replay"] = round(time.time() - t0, 1)
     agg = {"safe": {}, "out": {}, "unchanged": {}, "sameoff": {}}
     tot = {"renders": 0, "errors": 0, "steps": 0, "flag_agree": 0, "flag_disagree_n": 0}
     examples = []
@@ -408,17 +422,28 @@ def run(tier: str) -> int:
     for (ok, t, ok2, off), wit in sorted(agg["sameoff"].items()):
         records.append({"k": "sameoff", "onok": ok, "cs": list(t), "offok": ok2, "off": list(off)})
         back.append(("sameoff", wit, {"on": t if ok else "(error)", "off": off if ok2 else "(error)"}))
+    t0 = time.time()
     rej, r = judge(records)
+    ck.cov["phase_s"]["judge"] = round(time.time() - t0, 1)
     ck.tlc("TaintTrace", r)
     ck.cov["observations_judged"] = {k: len(v) for k, v in agg.items()}
-    for i in rej:
+    CUTTERS = ("slice", "remove_first", "remove_last", "remove", "replace_first", "replace_last", "replace", "split")
+    for i in sorted(rej):
         kind, (ci, sink, d, how), seen = back[i]
         case = cases[ci]
         src, extra = concretize(case, sink)
-        ck.fail(WHAT[kind], {"source": src, "templates": extra, "data": {"d": datum(d)}, "mode": how, "autoescape": True,
-                             "history": "first render {{ 0 | date: m }} with m = Markup(d) in the same environment" if case["hist"] == "primed" else "",
+        chain = chain_text(case['chain']).strip(' |')
+        sig = f"{kind}:{case['src']}:{chain}:{sink}"
+        if rej[i] == "amp":
+            # only "every & begins an escape sequence" fails (no raw < > quote): name the filter that cut the safe text
+            cut = next((c for c in CUTTERS if re.search(r"(^|\| )" + c + r"\b", chain)), None)
+            if cut:
+                sig = f"dangling-amp:{cut}"
+        ck.fail(WHAT[kind], {"source": src, "templates": extra, "data": {"d": datum(d) + ("z" if case["hist"] == "primed" else "")}, "mode": how, "autoescape": True,
+                             "history": (("{{ 0 | date: m }}" if case["src"] == "zero" else "{{ m" + chain_text(case["chain"]) + " }}")
+                                         if case["hist"] == "primed" else ""),
                              "observed": seen, "case": {k: case[k] for k in ("src", "chain", "hist", "cls")}, "sink": sink},
-                sig=f"{kind}:{case['src']}:{chain_text(case['chain']).strip(' |')}:{sink}")
+                sig=sig)
     for c in (cases[0], cases[len(cases) // 2], cases[-1]):
         s, _ = concretize(c, "out")
         ck.sample({"source": s, "class": c["cls"], "clean": c["clean"], "unchanged": c["unchanged"], "sameoff": c["sameoff"]})
@@ -439,9 +464,9 @@ def replay(path):
     env = _make_env(True)
     env.loader.templates.update(d.get("templates") or {})
     s = d["data"]["d"]
-    if d.get("history"):
-        env.from_string("{{ 0 | date: m }}").render(m=Markup(s))
     data = {"d": s, "arr": [s, "x"], "hh": [{"k": s}], "m": Markup(s), "h": SafeHTML(s)}
+    if d.get("history"):
+        print("history (rendered first, m = Markup(d)):", d["history"], _outcome(env.from_string(d["history"]), data, d["mode"]))
     print("source:", d["source"], " data:", d["data"])
     print("output:", _outcome(env.from_string(d["source"]), data, d["mode"]))
     print("reported:", d["observed"])
